@@ -54,7 +54,7 @@ def data_row(i, table, expanded, maxlen):
     return cat('t', key, body), ts, code
 
 
-def extract(table, cfg_mode, expanded, enc, blocked, nrows, maxlen, via_csv=False):
+def extract(table, cfg_mode, expanded, enc, blocked, nrows, maxlen, via_csv=False, start_lo=19):
     def h():
         core.FUEL.set(40)
         m = M().mciipm
@@ -63,7 +63,7 @@ def extract(table, cfg_mode, expanded, enc, blocked, nrows, maxlen, via_csv=Fals
             from . import packaged
             layout = packaged.param_tables()[table]
         else:
-            S = sym_int('col_start', 19, 60)
+            S = sym_int('col_start', start_lo, 60)
             E = sym_int('col_end', 19, 90)
             layout = {'gen_col': {'start': S, 'end': E}, 'fixed_col': {'start': 19, 'end': 22}}
             pcfg = {table: layout}
@@ -159,12 +159,16 @@ def ascii_reader():
 def refusals():
     def h():
         m = M().mciipm
-        which = choose('case', ['no-trailer', 'other-trailer-only', 'no-config', 'not-in-caller-config', 'ok', 'ok-caller-config'])
+        which = choose('case', ['no-trailer', 'other-trailer-only', 'no-config', 'not-in-caller-config', 'ok', 'ok-caller-config', 'no-records', 'zero-bytes'])
         rows = [data_row(0, 'IP0040T1', False, 50)]
         rp = {'kind': 'refuse', 'args': {'case': which}}
         core.set_fallback(rp, 'C18/concretised')
         extra_rows = ['TRAILER RECORD IP0075T1  00000003'] if which == 'other-trailer-only' else []
         f = build_file(m, extra_rows + [r[0] for r in rows] + extra_rows, 'latin_1', False, with_trailer=(which not in ('no-trailer', 'other-trailer-only')))
+        if which == 'no-records':
+            f = RopeFile(b'\x00\x00\x00\x00')          # a VBS file that holds nothing but the terminator
+        elif which == 'zero-bytes':
+            f = RopeFile(b'')
         caller = {'IP0075T1': {'col': {'start': 19, 'end': 22}}, 'IP0190T1': {'col': {'start': 19, 'end': 30}}}
         try:
             if which == 'not-in-caller-config':
@@ -208,6 +212,8 @@ def obligations(tier):
                   'through mci_ipm_param_to_csv with the row-level csv stub', _funcs))
     obs.append(Ob('csv/generated/expanded', extract('IPGEN0T1', 'generated', True, 'latin_1', False, 2, 100, via_csv=True), 600,
                   'through mci_ipm_param_to_csv, generated layout', _funcs))
+    obs.append(Ob('generated/expanded/columns-over-the-key-fields', extract('IPGEN0T1', 'generated', True, 'latin_1', False, 1, 120, start_lo=0), 600,
+                  'generated table whose column may start anywhere from position 0 (over the timestamp / code / table id of an expanded row)', _funcs))
     obs.append(Ob('ascii-codec/non-ascii-outside-the-columns', ascii_reader(), 120,
                   'encoding=ascii (strict codec), concrete rows: bytes >= 0x80 only in a row of another table / behind the configured columns', _funcs))
     obs.append(Ob('refusals', refusals(), 60, 'missing trailer / unconfigured table', _funcs))
